@@ -17,22 +17,25 @@ From TC.Run Require Import RunLib.
 Import ListNotations.
 
 (* how the harness built a tree: [bexp] / [build] of Model/VErr.v (nested constructor calls) *)
-Inductive earg := ANil | ANilPtr | APlain (s : string) | AVE (b : bexp) | AWrap (s : string) (a : earg).
+(* [earg] / [build_earg] (arguments of AddErrorToValidation) and [hop] / [run_history] (interleaved reads and
+   AddErrorToValidation calls on one running object) are in Model/VErr.v *)
 
-Fixpoint build_earg (a : earg) (h : heap) : err * heap :=
-  match a with
-  | ANil => (ENil, h)
-  | ANilPtr => (ENilPtr, h)
-  | APlain s => (EPlain s, h)
-  | AVE b => let '(t, h1) := build b h in (EVE t, h1)
-  | AWrap s a' => let '(e, h1) := build_earg a' h in (EWrap s e, h1)
-  end.
+(* what the harness saw at one step of a history; snapshots are taken through the getters *)
+Inductive hobs :=
+| OSkip                                                       (* not applicable: running object nil / no such child *)
+| ORead (before after : vt) (v : read_val)                    (* snapshots of the object that was read *)
+| OAdd (before arg : option vt) (nilres : bool) (after : option vt)
+                                (* running object before, ValidationError inside the argument, result *)
+| OAddChild (before : vt) (arg : option vt) (after : vt)      (* the PARENT (running object) before / after *)
+| OPanic.
 
 Inductive case :=
 | CRead (h0 : list amap) (b : bexp) (ops : list read_op) (snap0 snap1 : vt)
         (obs : list read_val) (panicked : bool)
 | CAdd (h0 : list amap) (a1 a2 : earg) (same : bool) (s1 s2 : option vt)
-       (panicked nilres : bool) (r0 r1 : option vt) (ops : list read_op) (obs : list read_val).
+       (panicked nilres : bool) (r0 r1 : option vt) (ops : list read_op) (obs : list read_val)
+(* a history on one running object (Model/VErr.v [hop]): start = nil or a constructed tree, s0 = its snapshot *)
+| CHist (h0 : list amap) (start : option bexp) (s0 : option vt) (ops : list hop) (obs : list hobs).
 
 (* ---------- equality / multiset helpers ---------- *)
 Definition slist_eqb := list_eqb String.eqb.
@@ -134,6 +137,52 @@ Definition first_map (want : read_op) (ops : list read_op) (obs : list read_val)
      | _, _ => None
      end) ops obs.
 
+(* ---- histories ---- *)
+Definition join_path (p : list string) : string := fold_right (fun c acc => c +++ dot +++ acc) empty_str p.
+
+Fixpoint vt_kid (l : list (string * vt)) (k : string) : option vt :=
+  match l with [] => None | (k', c) :: r => if String.eqb k' k then Some c else vt_kid r k end.
+Fixpoint vt_child_at (t : vt) (p : list string) : option vt :=
+  match p with
+  | [] => Some t
+  | k :: r => match t with Node _ _ ks => match vt_kid (okids ks) k with Some c => vt_child_at c r | None => None end end
+  end.
+
+Definition opairs (w : bool) (s : option vt) : list (string * string) :=
+  match s with Some a => pairs w a | None => [] end.
+
+(* one step, given the snapshot [cs] of the running object the previous steps left; returns the new snapshot *)
+Definition hstep_mon (cs : option vt) (o : hop) (x : hobs) : option (option vt) :=
+  match o, x with
+  | _, OSkip => Some cs
+  | HRead op, ORead b a v =>
+      if ovt_eqb cs (Some b) && vt_eqb b a && read_ok b op v then Some cs else None
+  | HReadChild p op, ORead b a v =>
+      if ovt_eqb (match cs with Some t => vt_child_at t p | None => None end) (Some b) && vt_eqb b a && read_ok b op v
+      then Some cs else None
+  | HAdd a, OAdd b s nilres r | HAddTo a, OAdd b s nilres r =>
+      let need w := opairs w b ++ arg_pairs w a s in
+      if ovt_eqb cs b &&
+         (if nilres then match r, need false, need true with None, [], [] => true | _, _, _ => false end
+          else match r with
+               | Some sr => pairs_sub (need false) (pairs false sr) && pairs_sub (need true) (pairs true sr)
+               | None => false
+               end)
+      then Some r else None
+  | HAddChild p a, OAddChild b s r =>
+      let need w := pairs w b ++ map (pfx_pair (join_path p)) (arg_pairs w a s) in
+      if ovt_eqb cs (Some b) && pairs_sub (need false) (pairs false r) && pairs_sub (need true) (pairs true r)
+      then Some (Some r) else None
+  | _, _ => None
+  end.
+
+Fixpoint hist_mon (cs : option vt) (ops : list hop) (obs : list hobs) : bool :=
+  match ops, obs with
+  | [], [] => true
+  | o :: r, x :: r' => match hstep_mon cs o x with Some cs' => hist_mon cs' r r' | None => false end
+  | _, _ => false
+  end.
+
 Definition monitor (c : case) : bool :=
   match c with
   | CRead h0 b ops snap0 snap1 obs panicked =>
@@ -153,6 +202,7 @@ Definition monitor (c : case) : bool :=
             | _, _ => false
             end
         end
+  | CHist h0 start s0 ops obs => hist_mon s0 ops obs
   end.
 
 (* ---------- correspondence with the model ---------- *)
@@ -212,9 +262,45 @@ Definition corr (c : case) : bool :=
               end
           end
       end
+  | CHist h0 start s0 ops obs => false
+  end.
+
+Definition hres_agrees (m : hres) (x : hobs) : bool :=
+  match m, x with
+  | HSkip, OSkip => true
+  | HVal v, ORead _ _ v' => val_agrees (strip_nl v) v'
+  | HAbs None, OAdd _ _ nilres None => nilres
+  | HAbs (Some a), OAdd _ _ nilres (Some r) => negb nilres && vt_sim a r
+  | HAbs (Some a), OAddChild _ _ r => vt_sim a r
+  | _, _ => false
+  end.
+Fixpoint hres_agree (ms : list hres) (xs : list hobs) : bool :=
+  match ms, xs with
+  | [], [] => true
+  | m :: r, x :: r' => hres_agrees m x && hres_agree r r'
+  | _, _ => false
+  end.
+Definition has_panic (xs : list hobs) : bool := existsb (fun x => match x with OPanic => true | _ => false end) xs.
+
+Definition corr_hist (h0 : list amap) (start : option bexp) (s0 : option vt) (ops : list hop) (obs : list hobs) : bool :=
+  let '(cur, h) := match start with
+                   | None => (None, h0)
+                   | Some b => let '(t, h) := build b h0 in (Some t, h)
+                   end in
+  cur_wf h cur && forallb (hop_ok (length h0)) ops &&
+  match cur, s0 with
+  | None, None => true
+  | Some t, Some s => vt_eqb (abs h t) s
+  | _, _ => false
+  end &&
+  match run_history ops cur h with
+  | Result (xs, _, _) => negb (has_panic obs) && hres_agree xs obs
+  | Panic => has_panic obs
   end.
 
 Definition verdict (c : case) : nat :=
-  if monitor c then (if corr c then 0 else 2) else 1.
+  if monitor c then
+    (if match c with CHist h0 start s0 ops obs => corr_hist h0 start s0 ops obs | _ => corr c end then 0 else 2)
+  else 1.
 
 Definition mismatches (cs : list case) : list (nat * nat) := collect verdict 0 cs.
